@@ -57,7 +57,7 @@ const POSITIONS: [(&str, &str, &str); 30] = [
 ];
 
 /// whole programs with one structural type error (name, source)
-const STRUCTURAL: [(&str, &str); 26] = [
+const STRUCTURAL: [(&str, &str); 32] = [
     ("array-length-annotation", "fn main() { let a: [int32; 3] = [1, 2]; string_println(\"x\") }"),
     ("array-length-param", "fn f(a: [int32; 2]) -> int32 { array_get(a, 0) }\nfn main() { string_println(int32_to_string(f([1, 2, 3]))) }"),
     ("array-length-return", "fn f() -> [int32; 2] { [1, 2, 3] }\nfn main() { string_println(int32_to_string(array_get(f(), 0))) }"),
@@ -76,6 +76,12 @@ const STRUCTURAL: [(&str, &str); 26] = [
     ("return-unit-for-int", "fn g() -> int32 { string_println(\"x\") }\nfn main() { string_println(int32_to_string(g())) }"),
     ("unknown-type", "fn f(p: Nope) -> int32 { 1 }\nfn main() { string_println(\"x\") }"),
     ("unknown-variant", "fn main() { let o = Nothing; string_println(\"x\") }"),
+    ("field-access-struct-params-flipped", "struct Pr[A, B] { first: A, second: B }\nfn pick[B, A](p: Pr[B, A]) -> A { p.first }\nfn main() { string_println(\"x\") }"),
+    ("field-access-struct-params-rotated", "struct T3[A, B, C] { fa: A, fb: B, fc: C }\nfn pick[C, A, B](p: T3[C, A, B]) -> A { p.fa }\nfn main() { string_println(\"x\") }"),
+    ("field-access-struct-param-named-like-fn-param", "struct Bq[T] { v: T }\nfn pick[T, U](p: Bq[U], t: T) -> T { p.v }\nfn main() { string_println(\"x\") }"),
+    ("method-result-struct-params-flipped", "struct Pr[A, B] { first: A, second: B }\nimpl[A, B] Pr[A, B] { fn fst(self: Pr[A, B]) -> A { self.first } }\nfn pick[B, A](p: Pr[B, A]) -> A { Pr::fst(p) }\nfn main() { string_println(\"x\") }"),
+    ("pattern-struct-params-flipped", "struct Pr[A, B] { first: A, second: B }\nfn pick[B, A](p: Pr[B, A]) -> A { match p { Pr { first: f, second: g } => f } }\nfn main() { string_println(\"x\") }"),
+    ("enum-payload-params-flipped", "enum Ei[L, R] { Lf(L), Rt(R) }\nfn pick[R, L](e: Ei[R, L], d: L) -> L { match e { Lf(x) => x, Rt(y) => d } }\nfn main() { string_println(\"x\") }"),
     ("trait-path-arity-tparam-receiver-via-call", "trait Dsp { fn sw(Self, int32) -> string; }\nimpl Dsp for P { fn sw(self: P, k: int32) -> string { int32_to_string(self.a + k) } }\nfn idg[U](u: U) -> U { u }\nstruct Bq[T] { v: T }\nfn render[T: Dsp](x: T) -> string { Dsp::sw(idg(x), 1, 2) }\nfn main() { string_println(render(P { a: 1 })) }"),
     ("trait-path-arity-less-tparam-receiver-via-call", "trait Dsp { fn sw(Self, int32) -> string; }\nimpl Dsp for P { fn sw(self: P, k: int32) -> string { int32_to_string(self.a + k) } }\nfn idg[U](u: U) -> U { u }\nstruct Bq[T] { v: T }\nfn render[T: Dsp](x: T) -> string { Dsp::sw(idg(x)) }\nfn main() { string_println(render(P { a: 1 })) }"),
     ("trait-path-missing-bound-tparam-receiver", "trait Dsp { fn sw(Self, int32) -> string; }\nimpl Dsp for P { fn sw(self: P, k: int32) -> string { int32_to_string(self.a + k) } }\nfn idg[U](u: U) -> U { u }\nstruct Bq[T] { v: T }\nfn render[T](x: T) -> string { Dsp::sw(x, 1) }\nfn main() { string_println(render(P { a: 1 })) }"),
@@ -204,7 +210,7 @@ impl Family for IllTyped {
         &["C03", "C04"]
     }
     fn rule(&self) -> &'static str {
-        "30 typed positions (operator operands, annotated let, parameters, conditions, return position, struct field, constructor payload, array element/index/set, ref_set, vec_push, branches, closure/method/generic arguments, the argument of a trait method called in path / dot form on a concrete receiver and on a type-parameter receiver whose type is known at the call or only after a generic call / through a closure parameter / through a field of a generic struct) x 10 expressions of different types (the well-typed one must be accepted, the other nine rejected by the typer); 26 structural errors (array length in annotation/param/return, unknown/missing/extra field, call and constructor arity, tuple projection range, pattern arity/type, calling a non-function, unknown type/variant; a trait method called in path form with too many / too few arguments, without the bound, under another bound, with no impl for the receiver - the receiver reached directly, through a generic call, a closure parameter, a field); literal patterns: 4 literal kinds x 10 scrutinee types x 6 positions (directly; under a generic constructor, in a tuple from a generic call, on a closure parameter, on a let-bound generic result - the scrutinee's type still being inferred; against a rigid type parameter): rejected unless the literal's kind is the type's; written types: 24 spellings (6 well-formed; unknown names bare and under Vec / Ref / array / tuple / function types / a generic struct, a generic struct with no / too many arguments also under Vec, arguments given to a non-generic struct or a builtin, dyn of a missing trait / of a struct, the enclosing function's type parameter and one that is nobody's) x 16 places a type can be written (parameter, result, struct field, enum payload, let annotation in main / in an unused function / in a closure / in a match arm / on a tuple pattern / in a generic function, closure parameter plain / nested / second, method parameter, trait method parameter, extern parameter): accepted iff well-formed; operator domain: 12 binary + 2 unary operators x 13 operand types, written directly and inside a generic function instantiated at the type (accepted iff inside the documented domain). non-trivial = ill-typed variants; distinct = distinct source text"
+        "30 typed positions (operator operands, annotated let, parameters, conditions, return position, struct field, constructor payload, array element/index/set, ref_set, vec_push, branches, closure/method/generic arguments, the argument of a trait method called in path / dot form on a concrete receiver and on a type-parameter receiver whose type is known at the call or only after a generic call / through a closure parameter / through a field of a generic struct) x 10 expressions of different types (the well-typed one must be accepted, the other nine rejected by the typer); 32 structural errors (a field / method result / pattern variable of a generic struct or enum used at the type of another of its parameters, inside a generic function whose parameters carry the struct's parameter names in another order; array length in annotation/param/return, unknown/missing/extra field, call and constructor arity, tuple projection range, pattern arity/type, calling a non-function, unknown type/variant; a trait method called in path form with too many / too few arguments, without the bound, under another bound, with no impl for the receiver - the receiver reached directly, through a generic call, a closure parameter, a field); literal patterns: 4 literal kinds x 10 scrutinee types x 6 positions (directly; under a generic constructor, in a tuple from a generic call, on a closure parameter, on a let-bound generic result - the scrutinee's type still being inferred; against a rigid type parameter): rejected unless the literal's kind is the type's; written types: 24 spellings (6 well-formed; unknown names bare and under Vec / Ref / array / tuple / function types / a generic struct, a generic struct with no / too many arguments also under Vec, arguments given to a non-generic struct or a builtin, dyn of a missing trait / of a struct, the enclosing function's type parameter and one that is nobody's) x 16 places a type can be written (parameter, result, struct field, enum payload, let annotation in main / in an unused function / in a closure / in a match arm / on a tuple pattern / in a generic function, closure parameter plain / nested / second, method parameter, trait method parameter, extern parameter): accepted iff well-formed; operator domain: 12 binary + 2 unary operators x 13 operand types, written directly and inside a generic function instantiated at the type (accepted iff inside the documented domain). non-trivial = ill-typed variants; distinct = distinct source text"
     }
     fn cases(&self, _tier: Tier) -> Box<dyn Iterator<Item = Value> + '_> {
         let mut v = Vec::new();
